@@ -291,9 +291,16 @@ def udp_check(ctx, bad):
     if len(good) < 4:
         raise core.HarnessError('UDP harness: the well-formed datagrams are not all answered with status 0')
     n = 0
-    for _ in range(120 if ctx.thorough else 25):
+    noob = E.build_unconnected(L.py_req(('get', ('num', 0x77, 1, 1, None))), ctx=b'udp-noob', session=0)
+    for rnd in range(121 if ctx.thorough else 26):
         dg, want = [], []
-        for j in range(rng.randrange(3, 9)):
+        if rnd == 0:
+            # scripted, run with every seed: a peer's well-formed datagrams before and after its own unroutable and malformed ones
+            p1, p2 = ('10.9.0.1', 1000), ('10.9.0.2', 1001)
+            mark = lambda g, j: g[:19] + bytes([48 + j]) + g[20:]
+            dg = [(mark(good[0], 0), p1), (noob, p1), (mark(good[1], 2), p1), (good[2][:11], p2), (mark(good[3], 4), p2), (noob, p2), (mark(good[0], 6), p2), (mark(good[2], 7), p1)]
+            want = [True, False, True, False, True, False, True, True]
+        for j in range(rng.randrange(3, 9) if rnd else 0):
             g = rng.choice(good)
             k = rng.random()
             # hostile datagrams come from other peers and from the very peers that send the well-formed ones (a datagram is its own
@@ -303,7 +310,7 @@ def udp_check(ctx, bad):
                 dg.append((g[:19] + bytes([48 + j]) + g[20:], peer)); want.append(True)       # distinguishable sender context
             elif k < 0.58:
                 # well-formed but unroutable (an object that does not exist): answered with a non-zero encapsulation status
-                dg.append((E.build_unconnected(L.py_req(('get', ('num', 0x77, 1, 1, None))), ctx=b'udp-noob', session=0), peer)); want.append(False)
+                dg.append((noob, peer)); want.append(False)
             elif k < 0.65:
                 dg.append((g + bytes(rng.getrandbits(8) for _ in range(rng.choice([1, 2, 12, 24, 30]))), peer)); want.append(False)
             elif k < 0.75:
@@ -539,6 +546,16 @@ def run(ctx):
     names = {t['name'].lower(): k for k, t in enumerate(c06.TAGS)}
     valid = []
     crafted = crafted_streams()
+    # scripted well-formed sessions, run with every seed (requests that name objects / instances / attributes that do not exist, next to
+    # ones that do): afterwards the tags are what the session model says
+    env = lambda k: (0x1234, struct.pack('<Q', k), 0)
+    for items in ([('multi', [('set', ('num', 2, 7, 1, None), [0x5A] * 16), ('readf', ('sym', 'T', None), 4, 0), ('get', ('num', 2, 9, 1, None))]),
+                   ('multi', [('read', ('sym', 'T', None), 1), ('get', ('num', 0x77, 1, 1, None)), ('set', ('num', 0x99, 7, 2, None), [0x33] * 6), ('get', ('num', 0x99, 1, 2, None))]),
+                   ('set', ('sym', 'Tx', None), [1, 2]), ('get', ('num', 0x99, 1, 9, None)), ('set', ('num', 0x99, 1, 2, None), [1, 0, 2, 0, 3, 0])],
+                  [('multi', [('set', ('num', 0x99, 2, 2, None), [0x44] * 6), ('set', ('num', 2, 2, 1, None), [0x45] * 16)]), ('read', ('sym', 'S', None), 3)]):
+        sess = [(('register',),) + env(0)] + [(('send', None, it),) + env(k + 1) for k, it in enumerate(items)]
+        frs = [c06.frame_of(*x) for x in sess]
+        valid.append((sess, frs, run_stream(b''.join(frs))))
     for i in range(N + len(crafted)):
         if i >= N:
             kind, stream = crafted[i - N]
